@@ -94,14 +94,15 @@ def gen(rng, tier, ctx):
         doc = [root]
         for uri in nss:
             doc = [("ns", {AND: "android", APP: "app"}[uri], uri, doc)]
-        cases.append((doc, rng.random() < 0.5, rng.random() < 0.7))
+        use_map = rng.random() < 0.7
+        cases.append((doc, rng.random() < 0.5, use_map) + ((True,) if use_map and rng.random() < 0.3 else ()))     # True: the mapped names stripped from the pool
     return cases
 
 
 def build(case):
     from tools.writers import axmlwriter as W
-    doc, utf8, use_map = case
-    raw, pool = W.build(doc, utf8=utf8, resmap=RESIDS if use_map else None)
+    doc, utf8, use_map = case[:3]
+    raw, pool = W.build(doc, utf8=utf8, resmap=RESIDS if use_map else None, strip_mapped=len(case) > 3)
     return raw
 
 
@@ -204,7 +205,7 @@ def oracle(case, res):
 
 
 def stats(cases, results):
-    d = {"documents": len(cases), "utf8_pools": sum(1 for c in cases if c[1]), "with_resource_map": sum(1 for c in cases if c[2]), "elements": 0,
+    d = {"documents": len(cases), "utf8_pools": sum(1 for c in cases if c[1]), "with_resource_map": sum(1 for c in cases if c[2]), "mapped_names_stripped": sum(1 for c in cases if len(c) > 3), "elements": 0,
          "attributes": 0, "text_chunks": 0}
 
     def walk_(nodes):
